@@ -143,6 +143,10 @@ class Unit:
                 pat, repl = parts[0], parts[1]
                 rest = parse_kv(delim.join(parts[2:]))
                 (pre_subs if pre else subs).append((pat, repl, int(rest.get('min', 1)), rest.get('ifdef')))
+            elif st.startswith('//@prepysub'):
+                kv = parse_kv(st[11:])
+                nm = [k for k in kv if k not in ('min', 'ifdef')][0]
+                pre_subs.append(('py:' + nm, None, int(kv.get('min', 1)), kv.get('ifdef')))
             elif st.startswith('//@pysub'):
                 kv = parse_kv(st[8:])
                 nm = [k for k in kv if k not in ('min', 'ifdef')][0]
@@ -204,7 +208,11 @@ class Unit:
         for pat, repl, mn, ifd in pre_subs:
             if ifd and ifd not in defs:
                 continue
-            text, n = re.subn(pat, repl, text)
+            if pat.startswith('py:'):
+                from . import rules
+                text, n = rules.RULES[pat[3:]](text)
+            else:
+                text, n = re.subn(pat, repl, text)
             rw.log['presub:' + pat] = n
             if n < mn:
                 raise X.ExtractError('%s: presub /%s/ fired %d < %d' % (self.name, pat, n, mn))
